@@ -115,12 +115,19 @@ func cmdCheck(args []string) (code int) {
 		curProg, inlining = p, false
 		paramBind = map[*ssa.Parameter]ssa.Value{}
 		pureCache = map[*ssa.Function]int{}
+		// (all rules of all properties, so that the set of anchors does not depend on the property being checked)
 		dry := &Ctx{P: p, counted: map[string]int{}, funcs: map[string]bool{}}
-		for _, rid := range pd.Rules {
-			if ri := rules[rid]; ri != nil && (*only == "" || *only == rid) {
-				dry.rule = ri
-				ri.Run(dry)
-			}
+		var allIDs []string
+		for rid := range rules {
+			allIDs = append(allIDs, rid)
+		}
+		sort.Strings(allIDs)
+		for _, rid := range allIDs {
+			dry.rule = rules[rid]
+			func() {
+				defer func() { recover() }()
+				rules[rid].Run(dry)
+			}()
 		}
 		inlining = true
 		ctx := &Ctx{P: p, counted: map[string]int{}, funcs: funcs}
